@@ -104,6 +104,11 @@ func RunLoop(rctx RunCtx, prompt string) (err error) {
 				rctx.ctx.Scope().AppendError(err)
 				return
 			}
+			// a command may have stopped the application (exit): the loop's own scope learns that
+			// asynchronously, so ask the application scope before fetching another command
+			if rctx.application.Scopes().App().IsDone() {
+				return
+			}
 		}
 	}
 }
